@@ -764,10 +764,17 @@ class Mailbox:
                 # between different IMAP Commands that are allowed to run at
                 # the same time if they do not operate on the same messages.
                 #
-                # try:
-                imap_cmd.msg_set_as_set = self.msg_set_to_msg_seq_set(
-                    imap_cmd.msg_set, imap_cmd.uid_command
-                )
+                # If the set does not fit this mailbox the command can not
+                # run: hand it the error and release it right away.
+                #
+                try:
+                    imap_cmd.msg_set_as_set = self.msg_set_to_msg_seq_set(
+                        imap_cmd.msg_set, imap_cmd.uid_command
+                    )
+                except Bad as exc:
+                    imap_cmd.resolve_error = exc
+                    imap_cmd.ready.set()
+                    continue
 
                 # Block until the new IMAP command would not conflict with any
                 # of the currently executing IMAP commands.
@@ -787,9 +794,16 @@ class Mailbox:
                     # empty so we only need to update this one command)
                     #
                     if changed:
-                        imap_cmd.msg_set_as_set = self.msg_set_to_msg_seq_set(
-                            imap_cmd.msg_set, imap_cmd.uid_command
-                        )
+                        try:
+                            imap_cmd.msg_set_as_set = (
+                                self.msg_set_to_msg_seq_set(
+                                    imap_cmd.msg_set, imap_cmd.uid_command
+                                )
+                            )
+                        except Bad as exc:
+                            imap_cmd.resolve_error = exc
+                            imap_cmd.ready.set()
+                            continue
 
                 self.executing_tasks.append(imap_cmd)
                 imap_cmd.ready.set()
